@@ -60,6 +60,62 @@ def transient_across_transactions(chk: Check):
         cleanup(work)
 
 
+def hash_registry_phase(chk: Check, tier: str):
+    """HashRegistry.tla (KeccakRegistry + OffsetMap): model check, design mutations, replay of every history."""
+    import random as _random
+
+    from harness import hashreg_replay as hr
+    from harness.common import run_tlc
+
+    work = workdir("c08h")
+    try:
+        r = run_tlc("HashRegistry", f"MC_HashRegistry_{'q' if tier == 'quick' else 't'}.cfg", work=work, coverage=True, expect_violation=True, timeout=3000)
+        if not r.ok:
+            raise MachineryError(f"HashRegistry.tla violates {r.violated}")
+        chk.add_tlc(r)
+        never = [a for a, (d, t) in r.coverage.items() if t == 0]
+        if never:
+            raise MachineryError(f"HashRegistry.tla: actions never taken: {never}")
+        for cfg, prop in (("m_dropvalues", "CopyComplete"), ("m_shares", "RegistrationPrivate"), ("m_centred", "NothingOutsideTheBlock")):
+            m = run_tlc("HashRegistry", f"MC_HashRegistry_{cfg}.cfg", work=work, expect_violation=True)
+            if not m.violated or prop not in m.violated:
+                raise MachineryError(f"design mutation {cfg} is not refuted by {prop}: {m.violated}")
+            chk.count("negative_controls_rejected")
+        recs = [x for x in r.records if isinstance(x, dict) and "ops" in x]
+        if not recs:
+            raise MachineryError("HashRegistry.tla printed no histories")
+        rnd = _random.Random(chk.seed * 7919 + 8)
+        pick = recs if tier != "quick" or len(recs) <= 6000 else rnd.sample(recs, 6000)
+        kinds = set()
+        for rec in pick:
+            bad = hr.replay(rec)
+            chk.count("evaluations")
+            chk.count("traces_validated_against_impl")
+            shape = tuple(o["op"] for o in rec["ops"])
+            kinds.add(shape)
+            chk.nontrivial(("hashreg", shape, tuple(sorted(rec["hv"].items()))))
+            if bad:
+                key = "hash-registry:" + "-".join(shape)
+                chk.violation(key, f"KeccakRegistry does not behave as HashRegistry.tla on the history {[(o['op'], o['reg'], o['expr']) for o in rec['ops']]} with hash values {rec['hv']}: {bad[0]}",
+                              {"history": [(o["op"], o["reg"], o["expr"]) for o in rec["ops"]], "hash_values": rec["hv"], "disagreements": bad[:6],
+                               "how": "harness.hashreg_replay.replay(record) - model keys are mapped to real 256-bit keys, see the module docstring"})
+        # negative control of the replay: a registry whose copy forgets the values must be told apart
+        K = hr._api()
+
+        class Forgetful(K):
+            def copy(self):
+                c = Forgetful()
+                c._hash_ids = self._hash_ids.copy()
+                return c
+
+        if not any(hr.replay(rec, Forgetful) for rec in pick if any(o["op"] == "copy" for o in rec["ops"])):
+            raise MachineryError("negative control accepted: a registry copy without hash values is not noticed by the replay")
+        chk.count("negative_controls_rejected")
+        chk.cov["hash_registry"] = {"histories_enumerated": len(recs), "histories_replayed": len(pick), "operation_shapes": len(kinds)}
+    finally:
+        cleanup(work)
+
+
 def probes() -> list[Item]:
     """Hand-written programs for the reach of halmos' hash reverse lookup (stable keys `probe:...`)."""
     from eth_hash.auto import keccak
@@ -176,6 +232,7 @@ def run(chk: Check, tier: str):
     chk.cov["programs_symbolic_storage"] = nsym
     chk.cov["programs_entirely_unsupported"] = stuck_progs
     transient_across_transactions(chk)
+    hash_registry_phase(chk, tier)
     chk.cov["rule"] = (
         "sequences of 2-6 stores/loads over location expressions (scalars, mappings with 32-byte and short keys, dynamic "
         "arrays, struct offsets, nested to depth 3), each written in several syntactic forms (run-time SHA3, PUSH32 of "
